@@ -6,7 +6,8 @@
    Box/MakeBoxSpec.v.  Check/C09.v ties the model to /repo on every run. *)
 From Verif Require Import Base.GoSem Box.BoxGen Box.TableGrid Box.TableGridSpec Box.TableGridProofs
   Box.BoxWf Box.MakeBoxSpec Box.BoxInv Box.TableFixupProofs Box.TableFixupTotal Box.FlexGridProofs Box.InlineInBlockProofs
-  Box.BlockInInlineProofs Box.BlockInInlineTotal Box.BoxSim Box.BoxWfProofs Box.BoxTotal Box.ElementsProofs.
+  Box.BlockInInlineProofs Box.BlockInInlineTotal Box.BoxSim Box.BoxWfProofs Box.BoxTotal Box.ElementsProofs
+  Box.TableGridOverlap Box.TableGridOverlapBox.
 From Coq Require Import ZArith List Bool.
 Import ListNotations.
 Open Scope Z_scope.
@@ -95,6 +96,31 @@ Proof.
   vm_compute in E. injection E as <-. vm_compute in H. discriminate.
 Qed.
 Print Assumptions C09_slots_disjoint_refuted.
+
+(* What remains true of the property text: the ONLY cells of a row group that
+   can share a slot are a cell spanning columns (colspan > 1) and a cell that
+   spans down from a row above into one of its columns other than the first
+   (colspan_over_rowspan a b: a earlier in document order, sy a < sy b,
+   rowspan a > 1, colspan b > 1, b starts left of a).  Check/C09.v evaluates
+   the same predicate on /repo's tree: any other overlap is code 12. *)
+Theorem C09_slots_overlap_only_colspan_over_rowspan : forall g g',
+  group_spans_ok g -> box_assign_group g = Ok g' -> group_overlaps_explained g' = true.
+Proof. exact box_group_overlaps. Qed.
+Print Assumptions C09_slots_overlap_only_colspan_over_rowspan.
+
+Theorem C09_slots_overlap_generic :
+  forall (cell row : Type) (colspan_of rowspan_of gridx_of : cell -> Z) (place : cell -> Z -> Z -> cell)
+         (cells_of : row -> list cell) (set_cells : row -> list cell -> row),
+    (forall c x r, gridx_of (place c x r) = x) ->
+    (forall c x r, rowspan_of (place c x r) = r) ->
+    (forall c x r, colspan_of (place c x r) = colspan_of c) ->
+    (forall r cs, cells_of (set_cells r cs) = cs) ->
+    forall rows rows',
+      rows_spans_ok cell row colspan_of rowspan_of cells_of rows ->
+      assign_group cell row colspan_of rowspan_of place cells_of set_cells rows = Ok rows' ->
+      overlaps_explained (rows_slots cell row colspan_of rowspan_of gridx_of cells_of 0 rows') = true.
+Proof. exact assign_group_overlaps. Qed.
+Print Assumptions C09_slots_overlap_generic.
 
 (* ------------------------------------------------------------------ the passes *)
 (* Hypothesis of the pass theorems: `tree iok t` (Box/BoxInv.v) = the tree is
